@@ -192,6 +192,34 @@ Theorem C09_radius_kernel_mirror : forall (dlx dly dlz sx sy sz : Z) (wtab : Z -
 Proof. exact radius_kernel_mirror. Qed.
 Print Assumptions C09_radius_kernel_mirror.
 
+(* end to end for FilterConv(radius=...): pad = delem <= n on every axis, so ALL mode combinations are covered;
+   without constant modes the filtered field stays within the bounds of x ... *)
+Theorem C09_radius_filter_bounds : forall (g : grid) (dlx dly dlz sx sy sz : Z) (wtab : Z -> R)
+  (bx0 bx1 by0 by1 bz0 bz1 : bmode R),
+  1 <= nelx g -> 1 <= nely g -> (1 <= nelz g \/ (nelz g = 0 /\ dlz = 0)) ->
+  0 <= dlx <= nelx g -> 0 <= dly <= nely g -> 0 <= dlz <= nelz g ->
+  (forall k, (0 <= wtab k)%R) -> (0 < wtab 0%Z)%R ->
+  forall (x : list R) (lo hi : R) a b d,
+  is_const bx0 = false -> is_const bx1 = false -> is_const by0 = false -> is_const by1 = false ->
+  is_const bz0 = false -> is_const bz1 = false ->
+  Z.of_nat (length x) = nel g ->
+  (forall e, 0 <= e < nel g -> (lo <= zget x e <= hi)%R) ->
+  0 <= a < nelx g -> 0 <= b < nely g -> 0 <= d < nz1 g ->
+  (lo <= zget (fc_response (mk_fconv g (radius_kernel dlx dly dlz sx sy sz wtab) bx0 bx1 by0 by1 bz0 bz1 []) x)
+             (elemnumber g a b d) <= hi)%R.
+Proof. exact radius_filter_bounds. Qed.
+Print Assumptions C09_radius_filter_bounds.
+
+(* ... and with the default all-symmetric boundaries the volume is preserved *)
+Theorem C09_radius_filter_volume : forall (g : grid) (dlx dly dlz sx sy sz : Z) (wtab : Z -> R) (x : list R),
+  1 <= nelx g -> 1 <= nely g -> (1 <= nelz g \/ (nelz g = 0 /\ dlz = 0)) ->
+  0 <= dlx <= nelx g -> 0 <= dly <= nely g -> 0 <= dlz <= nelz g ->
+  (forall k, (0 <= wtab k)%R) -> (0 < wtab 0%Z)%R ->
+  Z.of_nat (length x) = nel g ->
+  nsum (fc_response (mk_fconv g (radius_kernel dlx dly dlz sx sy sz wtab) BSym BSym BSym BSym BSym BSym []) x) = nsum x.
+Proof. exact radius_filter_volume. Qed.
+Print Assumptions C09_radius_filter_volume.
+
 (* the pad size chosen by set_filter_radius never exceeds the domain: delem = min(n, .) *)
 Theorem C09_radius_pad_within_domain : forall (r dx : Q) (n : Z), radius_delem r dx n <= n.
 Proof. exact radius_delem_le. Qed.
